@@ -2061,3 +2061,139 @@ Proof.
   pose proof (mem_step_copy_no_fault c g e Hmode) as H.
   destruct (mem_step c g e) as [g'|s]; [apply IH; exact Hmode|congruence].
 Qed.
+
+(* ================================================================== *)
+(* 10. the in-place helpers never slice out of range                    *)
+(* ================================================================== *)
+
+Lemma mem_last_ascii_end_aux_le : forall s i best, best <= i -> mem_last_ascii_end_aux s i best <= i + length s.
+Proof.
+  induction s as [|c s IH]; intros i best H; cbn; [lia|].
+  destruct (c <=? 127)%N; (eapply Nat.le_trans; [apply IH; lia|lia]).
+Qed.
+
+Lemma mem_last_ascii_end_le : forall s, mem_last_ascii_end s <= length s.
+Proof. intros s. unfold mem_last_ascii_end. apply (mem_last_ascii_end_aux_le s 0 0). lia. Qed.
+
+Lemma mem_overwrite_in_range : forall m p off len start tail, start <= len ->
+  (forall s, mem_overwrite_n_truncate m p off len start tail <> RPanic s) /\
+  (forall m' n, mem_overwrite_n_truncate m p off len start tail = ROk (m', n) -> n <= len).
+Proof.
+  intros m p off len start tail H. unfold mem_overwrite_n_truncate.
+  replace (Nat.ltb len start) with false by (symmetry; apply Nat.ltb_ge; exact H).
+  destruct (mem_write m p (off + start) (firstn (Nat.min (len - start) (length tail)) tail)) as [m1| |s] eqn:E; cbn.
+  - split; [discriminate|]. intros m' n Heq. inversion Heq; subst. lia.
+  - split; discriminate.
+  - exfalso. unfold mem_write in E. destruct (firstn _ tail); [discriminate|]. destruct p; discriminate.
+Qed.
+
+Lemma mem_clean_in_range : forall m p off len,
+  (forall s, mem_clean_utf8 m p off len <> RPanic s) /\
+  (forall m' n, mem_clean_utf8 m p off len = ROk (m', n) -> n <= len).
+Proof.
+  intros m p off len. unfold mem_clean_utf8. destruct len as [|len'].
+  - split; [discriminate|]. intros m' n H. inversion H; subst. lia.
+  - apply mem_overwrite_in_range.
+    eapply Nat.le_trans; [apply mem_last_ascii_end_le|]. rewrite firstn_length. lia.
+Qed.
+
+Lemma mem_run_stx_no_panic : forall mode m r t s, mem_run_stx mode m r t <> RPanic s.
+Proof.
+  intros mode m r t s. destruct t; cbn [mem_run_stx]; try discriminate.
+  - destruct (concat _); [discriminate|]. destruct (mem_alloc m _). discriminate.
+  - destruct (Nat.eqb _ 0); discriminate.
+  - destruct (mem_get_field r key) as [|p off len]; [discriminate|].
+    destruct (Nat.ltb (maxlen + length suffix) len) eqn:El; [|discriminate]. apply Nat.ltb_lt in El.
+    destruct mode.
+    + destruct (mem_clean_in_range m p off maxlen) as [Hc1 Hc2].
+      destruct (mem_clean_utf8 m p off maxlen) as [[m1 tl]| |s1] eqn:E1; cbn; [|discriminate|exfalso; exact (Hc1 s1 eq_refl)].
+      specialize (Hc2 m1 tl eq_refl).
+      destruct (mem_overwrite_in_range m1 p off len tl suffix ltac:(lia)) as [Ho1 _].
+      destruct (mem_overwrite_n_truncate m1 p off len tl suffix) as [[m2 nl]| |s2] eqn:E2; cbn; [discriminate|discriminate|exfalso; exact (Ho1 s2 eq_refl)].
+    + destruct (mem_alloc m _) as [m1 v]. destruct v as [|q qoff qlen]; [discriminate|].
+      destruct (mem_clean_in_range m1 q qoff maxlen) as [Hc1 _].
+      destruct (mem_clean_utf8 m1 q qoff maxlen) as [[m2 tl]| |s1] eqn:E1; cbn; [discriminate|discriminate|exfalso; exact (Hc1 s1 eq_refl)].
+  - destruct (lr_unesc r); [discriminate|]. destruct (mem_index_byte 92 _); [|discriminate]. destruct (mem_alloc m _). discriminate.
+Qed.
+
+Lemma mem_run_stxs_no_panic : forall mode ts m r s, mem_run_stxs mode m r ts <> RPanic s.
+Proof.
+  induction ts as [|t ts IH]; intros m r s; cbn; [discriminate|].
+  pose proof (mem_run_stx_no_panic mode m r t) as H.
+  destruct (mem_run_stx mode m r t) as [[m1 r1]| |s1]; cbn; [apply IH|discriminate|exfalso; exact (H s1 eq_refl)].
+Qed.
+
+Lemma mem_run_txs_no_panic : forall mode ts m r s, mem_run_txs mode m r ts <> RPanic s.
+Proof.
+  induction ts as [|t ts IH]; intros m r s; cbn; [discriminate|].
+  destruct t as [t|conds body|conds].
+  - pose proof (mem_run_stx_no_panic mode m r t) as H.
+    destruct (mem_run_stx mode m r t) as [[m1 r1]| |s1]; cbn; [apply IH|discriminate|exfalso; exact (H s1 eq_refl)].
+  - destruct (forallb _ conds); [|apply IH].
+    pose proof (mem_run_stxs_no_panic mode body m r) as H.
+    destruct (mem_run_stxs mode m r body) as [[m1 r1]| |s1]; cbn; [apply IH|discriminate|exfalso; exact (H s1 eq_refl)].
+  - destruct (forallb _ conds); [discriminate|apply IH].
+Qed.
+
+(* the parser: only the first-token slice of defect 1 (property C09) *)
+Lemma mem_parse_panic_site : forall pa ls m r s, mem_parse pa ls m r = RPanic s -> s = 4%N.
+Proof.
+  intros pa ls m r s H. unfold mem_parse in H.
+  destruct (mem_parse_head ls m r) as [rb|s0|r3 off len] eqn:Eh; try discriminate.
+  - inversion H; subst. unfold mem_parse_head in Eh.
+    destruct (Nat.ltb (length (m_own m)) 32); [discriminate|].
+    destruct (negb (mem_first_is 60 (m_own m))); [discriminate|].
+    destruct (mem_next_field (m_own m) 0 (length (m_own m))) as [e|]; [|discriminate].
+    destruct (Nat.ltb e 2); [inversion Eh; reflexivity|].
+    destruct (negb _); [discriminate|]. destruct (mem_atoi _); [|discriminate].
+    destruct (_ || _)%bool; [discriminate|]. destruct (mem_parse_rest _ _ _ _ _ _) as [[[? ?] ?]|]; discriminate.
+  - exfalso. unfold mem_parse_msg in H.
+    destruct (p_max_rec pa <=? N.of_nat (length (m_own m)))%N.
+    + destruct (mem_clean_in_range m EOwn off (if (p_max_msg pa <? N.of_nat len)%N then N.to_nat (p_max_msg pa) else len)) as [Hc _].
+      destruct (mem_clean_utf8 m EOwn off _) as [[m1 l1]| |s1]; cbn in H; [discriminate|discriminate|exact (Hc s1 eq_refl)].
+    + cbn in H. discriminate.
+Qed.
+
+Lemma mem_release_no_gopanic : forall g h s, mem_release g h <> StepStop (GoPanic s).
+Proof.
+  intros g h s. unfold mem_release. destruct (nth_error (g_slots g) h); [|discriminate].
+  destruct (_ <? 0)%Z; [discriminate|]. destruct (0 <? _)%Z; [discriminate|].
+  destruct (r_backbuf _); [|discriminate]. destruct (mem_put_class _); discriminate.
+Qed.
+
+Lemma mem_release_final_no_gopanic : forall g h rid st s, mem_release_final g h rid st <> StepStop (GoPanic s).
+Proof.
+  intros g h rid st s. unfold mem_release_final. pose proof (mem_release_no_gopanic g h s) as H.
+  destruct (mem_release g h); [discriminate|congruence].
+Qed.
+
+Lemma mem_step_panic_site : forall c g e s, mem_step c g e = StepStop (GoPanic s) -> s = 4%N.
+Proof.
+  intros c g e s H. destruct e as [cs cb input ts|h|h]; cbn [mem_step] in H.
+  - destruct (mem_new_record c g cs cb input) as [[[[[[h r] bufs] cpy] slots]|]|s0] eqn:Enr; [|discriminate|].
+    2:{ apply mem_new_record_inr in Enr. subst s0. discriminate. }
+    destruct (mem_local_of _ _ _) as [[m lr]|]; [|discriminate].
+    pose proof (mem_parse_panic_site (c_params c) (c_level_sites c) m lr) as Hp.
+    destruct (mem_parse (c_params c) (c_level_sites c) m lr) as [[[[m1 lr1] pst] ov]| |s1]; [|discriminate|inversion H; subst; apply Hp; reflexivity].
+    destruct pst; [|exfalso; eapply mem_release_final_no_gopanic; eauto].
+    pose proof (mem_run_txs_no_panic (c_trunc_mode c) (c_extract c) m1 lr1) as Ht.
+    destruct (mem_run_txs (c_trunc_mode c) m1 lr1 (c_extract c)) as [[[m2 lr2] b]| |s1]; [|discriminate|exfalso; exact (Ht s1 eq_refl)].
+    destruct b; [discriminate|exfalso; eapply mem_release_final_no_gopanic; eauto].
+  - destruct (nth_error (g_slots g) h) as [[r st]|]; [|discriminate].
+    destruct st as [|l|]; try discriminate. destruct (l_phase l); [|discriminate].
+    destruct (mem_local_of g r l) as [[m lr]|]; [|discriminate].
+    pose proof (mem_run_txs_no_panic (c_trunc_mode c) (c_transforms c) m lr) as Ht.
+    destruct (mem_run_txs (c_trunc_mode c) m lr (c_transforms c)) as [[[m2 lr2] b]| |s1]; [|discriminate|exfalso; exact (Ht s1 eq_refl)].
+    destruct b; [discriminate|exfalso; eapply mem_release_final_no_gopanic; eauto].
+  - destruct (nth_error (g_slots g) h) as [[r st]|]; [|discriminate].
+    destruct st as [|l|]; try discriminate. destruct (l_phase l); [discriminate|].
+    destruct (nth_error (c_outputs c) done) as [oc|]; [|discriminate].
+    destruct (mem_local_of g r l) as [[m lr]|]; [|discriminate].
+    destruct (mem_serialize _ _ oc m lr) as [d lr1]. exfalso. eapply mem_release_no_gopanic; eauto.
+Qed.
+
+Lemma mem_run_panic_site : forall c evs g s, mem_run c g evs = StepStop (GoPanic s) -> s = 4%N.
+Proof.
+  intros c evs. induction evs as [|e evs IH]; intros g s H; cbn in H; [discriminate|].
+  destruct (mem_step c g e) as [g'|s0] eqn:E; [eapply IH; eauto|]. inversion H; subst. eapply mem_step_panic_site; eauto.
+Qed.
